@@ -27,9 +27,16 @@ SCENARIOS = [('create_enddef', 1), ('create_enddef', 2), ('create_close', 1), ('
              ('put_get_coll', 1), ('put_get_coll', 2), ('put_get_indep', 1), ('put_get_indep', 2),
              ('sync_close_indep', 1), ('sync_close_indep', 2), ('redef_indep', 1), ('redef_indep', 2),
              ('redef_move', 1), ('redef_move', 2), ('wait_mixed', 1), ('wait_mixed', 2), ('wait_puts', 2), ('wait_gets', 2),
-             ('wait_indep', 1), ('wait_indep', 2), ('wait_two_phases_indep', 1), ('data_mode_meta', 1), ('data_mode_meta', 2),
-             ('open_read', 1), ('open_read', 2), ('zero_req', 2), ('hcoll_header', 2)]
+             ('wait_indep', 1), ('wait_indep', 2), ('data_mode_meta', 1), ('data_mode_meta', 2),
+             ('open_read', 1), ('open_read', 2), ('open_bighdr', 1), ('zero_req', 2), ('hcoll_header', 2)]
 LATER_LABELS = ('wait_all_mixed', 'wait_mixed')      # API calls whose request mix has a read phase after the write phase
+# Rows of the header PARSER whose status is discarded (`if (err != NC_NOERR) break;` in the dimid loop of
+# hdr_get_NC_var, then `err` is assigned again).  The table row says "dropped", and that is what the C does with
+# the status; but hdr_get_uint32/64 return BEFORE consuming the field, so the parser continues one field behind and
+# fails with a format error (NC_EBADTYPE / NC_ENOTNC) -- a state the status tables do not model ("every other
+# operation succeeds" is false here).  For these rows a non-zero return is accepted and counted separately, NC_NOERR
+# is a violation like everywhere else.
+PARSER_DESYNC_ROWS = ('hdr_get_NC_var>hdr_get_uint32.2', 'hdr_get_NC_var>hdr_get_uint64.2')
 
 
 def local_known(V):
@@ -219,7 +226,7 @@ def run_check(tier, seed):
         io_classes = [c for c in IO_CLASSES if c in clsval]
         explicit = set(c for c, _ in table['errmap']['explicit'])
         t1 = Timer()
-        watchdog = 15
+        watchdog = 5
         # baseline (count) runs
         base = {}
 
@@ -268,7 +275,7 @@ def run_check(tier, seed):
             i, (scen, n, rank, k, cn, key) = i_item
             return i_item, run_case(exe, wd, 'i%d' % i, scen, n, rank, k, clsval[cn], watchdog)
         results = []
-        with ThreadPoolExecutor(8 if tier == 'quick' else 10) as ex:
+        with ThreadPoolExecutor(12) as ex:
             for item, r in ex.map(do_inj, list(enumerate(plan))):
                 results.append((item, r))
         # model predictions
@@ -298,6 +305,22 @@ def run_check(tier, seed):
         distinct = set()
         tie_diffs, unmapped, validated, new_fail = [], [], 0, 0
         samples = []
+        new_sigs = set()
+
+        def report(sig, what, replay):
+            nonlocal new_fail
+            if sig in new_sigs:
+                return
+            if V.failing_input(sig, what, replay, tag='in%d' % new_fail):
+                new_sigs.add(sig)
+                new_fail += 1
+
+        def row_sig(rid):
+            row = next((r for r in table['sites'] + table['chains'] if r['id'] == rid), None)
+            if row is None:
+                return rid
+            base = row['func'] if 'func' in row else '%s>%s' % (row['caller'], row['callee'])
+            return '%s:%s%s' % (base, row['pattern'], '-zero-length' if row.get('zeroLen') else '')
         for m in metas:
             who = '%s n=%d rank=%d call#%d class=%s' % (m['scen'], m['n'], m['rank'], m['k'], m['cls'])
             hung = [(r, l['hang']) for r, l in enumerate(m['logs']) if l['hang'] is not None]
@@ -313,16 +336,30 @@ def run_check(tier, seed):
                           site=sid, chain=[c['id'] for c in m.get('chain', [])], api=label,
                           api_calls={str(r): [(a['label'], a['rc'], a['st']) for a in l['apis']] for r, l in enumerate(m['logs'])},
                           harness='harness/c11_fault.c <program> <file> <log> %d %d %d' % (m['rank'], m['k'], clsval[m['cls']]))
-            if hung or notdone or (m['rc'] != 0 and m['rc'] != -999 and not all(l['done'] for l in m['logs'])):
-                kind = 'hang' if (hung or m['rc'] == -999) else 'crash'
+            if hung or notdone:
+                ksig = '%s@%s:%s' % ('hang' if hung else 'crash', site['func'] if site else '?',
+                                     next((h[1] for _, h in hung if h[1] != 'sync'), label))
+                if not any(kf['sig'] == ksig for kf in V.known) and ksig not in new_sigs:
+                    # not a known finding: confirm with a generous watchdog before calling it a hang (loaded machine)
+                    rc2, logs2, err2 = run_case(exe, wd, 'c%d' % m['i'], m['scen'], m['n'], m['rank'], m['k'], clsval[m['cls']], 45)
+                    if all(l['done'] for l in logs2):
+                        dist['slow-run-not-a-hang'] += 1
+                        continue
+                    m['logs'] = logs2
+                    hung = [(r, l['hang']) for r, l in enumerate(logs2) if l['hang'] is not None]
+                    notdone = [r for r, l in enumerate(logs2) if not l['done'] and l['hang'] is None]
+                # ranks blocked INSIDE the API call in which the fault fired (label "sync" = that rank had returned
+                # and was waiting for the others)
+                inside = [(r, h) for r, h in hung if h[1] != 'sync']
+                kind = 'hang' if hung else 'crash'
+                lab2 = inside[0][1][1] if inside else label
                 dist[kind] += 1
-                sig = '%s@%s:%s' % (kind, sid, label)
+                sig = '%s@%s:%s' % (kind, site['func'] if site else '?', lab2)
                 replay['blocked_ranks'] = [(r, h) for r, h in hung]
                 replay['unfinished_ranks'] = notdone
-                if V.failing_input(sig, 'a failure injected at %s (%s) leaves ranks %s blocked / unfinished (%s)' % (sid, who, [r for r, _ in hung] + notdone, kind),
-                                   replay, tag='in%d' % new_fail):
-                    new_fail += 1
-                distinct.add((sid, tuple(replay['chain']), label, kind))
+                report(sig, 'a failure injected at %s (%s): rank(s) %s never return from API call %s (%s)' %
+                       (sid, who, [r for r, _ in inside] + notdone, lab2, kind), replay)
+                distinct.add((sid, tuple(replay['chain']), lab2, kind))
                 continue
             if site is None or m.get('prob'):
                 unmapped.append((who, m.get('prob')))
@@ -346,17 +383,14 @@ def run_check(tier, seed):
             # property oracle on the real library
             if observed == 0:
                 if pick == '0' and droprow != '-':
-                    row = next((r for r in table['sites'] + table['chains'] if r['id'] == droprow), None)
-                    sig = 'drop@%s' % droprow + (':nonEFILE' if row and row['pattern'] == 'onlyIfEFILE' else '')
+                    sig = 'drop@' + row_sig(droprow)
                 else:
                     sig = 'unpredicted-drop@%s:%s' % (sid, label)
-                if V.failing_input(sig, '%s: the %s of %s fails with %s and %s returns NC_NOERR on the failing rank' % (who, site['call'], sid, m['cls'], label),
-                                   replay, tag='in%d' % new_fail):
-                    new_fail += 1
-                    if new_fail >= 8:
-                        break
+                report(sig, '%s: the %s of %s fails with %s and %s returns NC_NOERR on the failing rank' % (who, site['call'], sid, m['cls'], label), replay)
             # correspondence
-            if pick == 'ambiguous' or observed is None or str(observed) != pick:
+            if pick == '0' and droprow in PARSER_DESYNC_ROWS and observed not in (0, None):
+                dist['parser-desync-reports-format-error'] += 1
+            elif pick == 'ambiguous' or observed is None or str(observed) != pick:
                 tie_diffs.append((who, 'site %s chain %s API %s: library returns %s, model predicts %s (outcomes %s)' % (sid, replay['chain'], label, observed, pick, allv)))
             else:
                 validated += 1
